@@ -8,6 +8,7 @@ import (
 	"fmt"
 	"hash"
 	"io"
+	"math"
 
 	"github.com/filecoin-project/go-f3/certs"
 	"github.com/filecoin-project/go-f3/gpbft"
@@ -238,13 +239,21 @@ func readSnapshotBlockBytes(reader SnapshotReader) ([]byte, error) {
 	if err != nil {
 		return nil, err
 	}
-	buf := make([]byte, n1)
-	n2, err := io.ReadFull(reader, buf)
-	if err != nil {
+	if n1 > math.MaxInt64 {
+		return nil, fmt.Errorf("invalid block length %d", n1)
+	}
+	// Don't trust the length prefix: grow the buffer as data arrives instead of
+	// allocating n1 bytes up front (a corrupted prefix must not panic or exhaust
+	// memory).
+	var buf bytes.Buffer
+	n2, err := io.CopyN(&buf, reader, int64(n1))
+	if err == io.EOF {
+		return nil, io.ErrUnexpectedEOF
+	} else if err != nil {
 		return nil, err
 	}
-	if n2 != int(n1) {
+	if uint64(n2) != n1 {
 		return nil, fmt.Errorf("incomplete block, %d bytes expected, %d bytes got", n1, n2)
 	}
-	return buf, nil
+	return buf.Bytes(), nil
 }
